@@ -6,12 +6,12 @@ package main
 
 import (
 	"encoding/json"
-	"math"
-	"unsafe"
 	"fmt"
+	"math"
 	"reflect"
 	"strconv"
 	"strings"
+	"unsafe"
 
 	bexpr "github.com/hashicorp/go-bexpr"
 )
@@ -1206,6 +1206,10 @@ func fragHidden(g *Gen, n int, o *Out) {
 		r1 := evalText(o, opts, text, d1)
 		r2 := evalText(o, opts, text, d2)
 		o.count("pair:" + norm(r1))
+		if e1, e2 := evalErrText(opts, text, d1), evalErrText(opts, text, d2); r1 == r2 && e1 != e2 {
+			// the TEXT of the error is observable too: it must not depend on hidden content
+			o.finding(Finding{Property: "C08", Kind: "failing-input", What: fmt.Sprintf("data differing only in hidden fields give errors with different texts: %.160q vs %.160q", e1, e2), Request: lastReq(o), Detail: text})
+		}
 		if r1 != r2 {
 			o.finding(Finding{Property: "C08", Kind: "failing-input", What: "data differing only in hidden fields give " + r1 + " vs " + r2, Request: lastReq(o), Detail: text})
 		}
@@ -1320,10 +1324,15 @@ func fragHidden(g *Gen, n int, o *Out) {
 					if fv := sv.Field(fi); fv.Kind() == reflect.String {
 						lit = fv.String()
 					}
-					for _, op := range []string{"eq", "ne", "empty", "matches"} {
+					for _, op := range []string{"eq", "ne", "empty", "matches", "below-ne", "below-empty", "below-all"} {
 						m := GMatch{Path: append(append([]string{}, p.Parts...), f.Name), Op: op, Raw: lit, LitStyle: 2}
 						if op == "matches" {
 							m.Raw, m.LitStyle = ".*", 3
+						}
+						if strings.HasPrefix(op, "below-") {
+							// a key BELOW the hidden field (absent or not): the walk must stop at the hidden field, whatever it holds
+							m.Path = append(m.Path, []string{"zz", "a", "tier", "0"}[g.r.Intn(4)])
+							m.Op = map[string]string{"below-ne": "ne", "below-empty": "empty", "below-all": "notin"}[op]
 						}
 						ht, _, okh := g.renderTop(m)
 						if !okh {
@@ -1422,6 +1431,11 @@ func matrixShapes() []shape {
 		{"struct", Inner{}}, {"*struct", &Inner{}}, {"nil*struct", (*Inner)(nil)}, {"Wrap", Wrap{V: 1}},
 		{"chan", make(chan int)}, {"nil-chan", (chan int)(nil)}, {"func", func() {}}, {"nil-func", (func())(nil)}, {"unsafe", unsafePtrOf(&one)},
 		{"nil-iface-field", nilIface},
+		// values whose String method writes into its receiver (a cache, as resource quantities do): formatting them
+		// — in an error message, a debug string — modifies the caller's datum
+		{"caching-stringer", &CachingHolder{Name: "p", Limit: &CachingQuantity{I: 1}, Reqs: []*CachingQuantity{{I: 2}, {I: 3}}}},
+		{"caching-stringer-value", CachingHolder{Name: "p", Limit: &CachingQuantity{I: 5}}},
+		{"[]caching-stringer", []*CachingQuantity{{I: 7}}},
 		// every scalar kind side by side in one interface-typed list, in both orders (a literal converted once
 		// for the first element's kind and reused for the next would show here), and structs of different
 		// types side by side (a field present in one element and not in the next)
@@ -1498,6 +1512,25 @@ func keyShapes() []keyShape {
 		{"map[*[1]func]int", map[*[1]func()]int{nil: 2}, true}, {"map[*[][1][]int]int", map[*[][1][]int]int{nil: 2}, true}, {"map[**[1][]int]int", map[**[1][]int]int{nil: 2}, true},
 		{"map[[1]*[1][]int]int", map[[1]*[1][]int]int{{nil}: 2}, true}, {"map[*[1][1][]int]int", map[*[1][1][]int]int{nil: 2}, true}, {"map[*[1]struct{[]int}]int", map[*[1]struct{ X []int }]int{nil: 2}, true},
 	}
+}
+
+// CachingQuantity caches its printed form into the receiver, like k8s resource.Quantity
+type CachingQuantity struct {
+	I int
+	S string
+}
+
+func (q *CachingQuantity) String() string {
+	if q.S == "" {
+		q.S = fmt.Sprint(q.I) + "m"
+	}
+	return q.S
+}
+
+type CachingHolder struct {
+	Name  string
+	Limit *CachingQuantity
+	Reqs  []*CachingQuantity
 }
 
 // systematicShapes: every element type of the zoo under every container constructor reflect offers
